@@ -351,3 +351,573 @@ theorem erase_geometry {ps : List Param} (A M B : List Elem) (hB : B ≠ []) :
     rw [h2, hAM, hdiff]; omega
 
 end Cntgs
+
+namespace Cntgs
+
+/-- `erase(first, last)` written out for the offset-table locator on the memmove path, when there is a tail to move -/
+theorem eraseRange_var_move (v : Vec) (i j : Nat) (hnf : v.fixedLoc = false) (ht : v.trivialReloc = true)
+    (hij : i < j) (hjn : j < v.loc.size) :
+    v.eraseRange i j =
+      { v with
+        mem := (v.destructRange i j).move (v.loc.slots j) (v.loc.last - v.loc.slots j) (v.loc.slots i),
+        poison := v.poison || (v.destructRange i j).moveHits (v.loc.slots j) (v.loc.last - v.loc.slots j) (v.loc.slots i),
+        loc := { v.loc with
+          slots := fun k =>
+            if i ≤ k ∧ k < i + (v.loc.size - j) then v.loc.slots (k + (j - i)) - (v.loc.slots j - v.loc.slots i)
+            else if j ≠ i ∧ k = v.loc.size - (j - i) then v.loc.last - (v.loc.slots j - v.loc.slots i)
+            else v.loc.slots k,
+          size := v.loc.size - (j - i),
+          last := v.loc.last - (v.loc.slots j - v.loc.slots i) } } := by
+  have hne : i ≠ j := by omega
+  have hne' : j ≠ i := by omega
+  have hjne : (j == v.loc.size) = false := by simp; omega
+  have hn' : v.loc.size - (j - i) ≠ 0 := by omega
+  have hlt : v.loc.size - (j - i) < v.loc.size := by omega
+  have hnf' : isFixedOrPlain v.ps = false := hnf
+  have ht' : (v.ps.all fun p => p.ty.trivMoveCtor && p.ty.trivDtor) = true := ht
+  have hk : ¬ (i ≤ v.loc.size - (j - i) ∧ v.loc.size - (j - i) < i + (v.loc.size - j)) := by omega
+  simp only [Vec.eraseRange, Vec.size, Vec.fixedLoc, hnf', Bool.false_eq_true, if_false, hjn, hne, ne_eq, not_false_eq_true, and_self,
+    if_true, Vec.moveForward, Vec.trivialReloc, ht', Vec.moveForwardTrivial, Bool.not_false, Bool.true_and, hjne,
+    Vec.addr, Vec.dataEnd, Loc.resize, hn', hlt, hk, hne']
+
+/-- … and when nothing has to be moved (empty range, or the range reaches the end) -/
+theorem eraseRange_var_nomove (v : Vec) (i j : Nat) (hnf : v.fixedLoc = false) (h : ¬ (j < v.loc.size ∧ i ≠ j)) :
+    v.eraseRange i j =
+      { v with mem := v.destructRange i j,
+               loc := { v.loc with
+                 last := (if v.loc.size - (j - i) = 0 then 0 else if v.loc.size - (j - i) < v.loc.size then v.loc.slots (v.loc.size - (j - i)) else v.loc.last),
+                 size := v.loc.size - (j - i) } } := by
+  have hnf' : isFixedOrPlain v.ps = false := hnf
+  simp only [Vec.eraseRange, Vec.size, Vec.fixedLoc, hnf', Bool.false_eq_true, if_false, h, Loc.resize]
+
+theorem VarInv.destruct_holds {v : Vec} {es : List Elem} (h : VarInv v es) (i j : Nat) (hj : j ≤ es.length) :
+    ∀ x, x ∈ v.destructRange i j ↔ ∃ k, k < es.length ∧ (k < i ∨ j ≤ k) ∧ x = canonRec v.ps es k :=
+  dropRange_holds h.mem_eq (canon_ordered h.lok es h.eok) i j hj v.addr (fun k _ hk => h.addr k (by omega))
+
+/-- **erase(first, last) refines removing a range from the sequence** (memmove path, offset-table locator) -/
+theorem VarInv.eraseRange {v : Vec} (A M B : List Elem) (h : VarInv v (A ++ M ++ B)) (ht : v.trivialReloc = true) :
+    VarInv (v.eraseRange A.length (A.length + M.length)) (A ++ B) := by
+  have hord := canon_ordered h.lok _ h.eok
+  have hlen : (A ++ M ++ B).length = A.length + M.length + B.length := by simp only [List.length_append]
+  have hsz : v.loc.size = A.length + M.length + B.length := by rw [h.size_eq, hlen]
+  have heok' : ElemsOK v.ps (A ++ B) := by
+    intro x hx
+    apply h.eok x
+    rcases List.mem_append.mp hx with hx | hx
+    · exact List.mem_append_left _ (List.mem_append_left _ hx)
+    · exact List.mem_append_right _ hx
+  have hdrop := h.destruct_holds A.length (A.length + M.length) (by omega)
+  by_cases hmove : A.length + M.length < v.loc.size ∧ A.length ≠ A.length + M.length
+  · -- a tail exists and something is erased
+    have hB : B ≠ [] := by
+      intro hb; subst hb; simp at hsz; omega
+    have hM : 0 < M.length := by omega
+    obtain ⟨g0, g1, g2, g3, g4⟩ := erase_geometry (ps := v.ps) A M B hB
+    rw [eraseRange_var_move v _ _ h.notFixed ht (by omega) hmove.1]
+    have hsj := h.slots_eq (A.length + M.length) (by omega)
+    have hsi := h.slots_eq A.length (by omega)
+    have hfin : (canonRec v.ps (A ++ M ++ B) ((A ++ M ++ B).length - 1)).off + (canonRec v.ps (A ++ M ++ B) ((A ++ M ++ B).length - 1)).sz ≤ v.loc.last := by
+      have hne : A ++ M ++ B ≠ [] := by simp [hB]
+      have hBl : 0 < B.length := List.length_pos_iff.mpr hB
+      rcases h.last_eq with hl | ⟨_, hl⟩
+      · rw [hl]; simp only [rawEndOf, if_neg hne, canonRec]; exact Nat.le_refl _
+      · rw [hl]; exact canon_end_le_next h.lok _ _ (by rw [hlen]; omega)
+    have hmv := move_holds hord A.length (A.length + M.length) v.loc.last (by omega) (by omega) hdrop hfin
+    simp only [canonRec] at hmv
+    rw [← hsj, ← hsi] at hmv
+    refine ⟨h.lok, h.notFixed, heok', ?_, ?_, ?_, ?_, ?_⟩
+    · simp only [List.length_append]; omega
+    · intro k hk
+      simp only [List.length_append] at hk
+      by_cases hkA : k < A.length
+      · have hc1 : ¬ (A.length ≤ k ∧ k < A.length + (v.loc.size - (A.length + M.length))) := by omega
+        have hc2 : ¬ (A.length + M.length ≠ A.length ∧ k = v.loc.size - (A.length + M.length - A.length)) := by omega
+        simp only [hc1, hc2, if_false]
+        rw [h.slots_eq k (by omega), (g1 k hkA).1]
+      · have hc1 : A.length ≤ k ∧ k < A.length + (v.loc.size - (A.length + M.length)) := by omega
+        simp only [hc1, and_self, if_true]
+        obtain ⟨e1, e2, _⟩ := g2 (k - A.length) (by omega)
+        rw [show A.length + (k - A.length) = k by omega] at e1
+        rw [e1, h.slots_eq _ (by omega), hsj, hsi]
+        congr 2; omega
+    · -- memory: front records unchanged, tail records shifted
+      intro x
+      rw [hmv.2 x]
+      constructor
+      · rintro (⟨k, hk, rfl⟩ | ⟨k, hk1, hk2, rfl⟩)
+        · refine ⟨k, by simp only [List.length_append]; omega, ?_⟩
+          obtain ⟨e1, e2⟩ := g1 k hk
+          simp only [canonRec, e1, e2]
+        · refine ⟨k - M.length, by simp only [List.length_append]; omega, ?_⟩
+          obtain ⟨e1, e2, e3⟩ := g2 (k - (A.length + M.length)) (by omega)
+          rw [show A.length + M.length + (k - (A.length + M.length)) = k by omega] at e1 e2 e3
+          rw [show A.length + (k - (A.length + M.length)) = k - M.length by omega] at e1 e3
+          simp only [canonRec, e1, e3, hsj, hsi]
+      · rintro ⟨k, hk, rfl⟩
+        simp only [List.length_append] at hk
+        by_cases hkA : k < A.length
+        · left
+          obtain ⟨e1, e2⟩ := g1 k hkA
+          exact ⟨k, hkA, by simp only [canonRec, e1, e2]⟩
+        · right
+          refine ⟨k + M.length, by omega, by omega, ?_⟩
+          obtain ⟨e1, e2, e3⟩ := g2 (k - A.length) (by omega)
+          rw [show A.length + (k - A.length) = k by omega] at e1 e3
+          rw [show A.length + M.length + (k - A.length) = k + M.length by omega] at e1 e2 e3
+          simp only [canonRec, e1, e3, hsj, hsi]
+    · -- end of data shifts with the tail
+      have hneAB : A ++ B ≠ [] := by simp [hB]
+      have hne : A ++ M ++ B ≠ [] := by simp [hB]
+      rcases h.last_eq with hl | ⟨_, hl⟩
+      · left
+        show v.loc.last - (v.loc.slots (A.length + M.length) - v.loc.slots A.length) = rawEndOf v.ps (A ++ B)
+        rw [hl, hsj, hsi]
+        simp only [rawEndOf, hne, hneAB, if_false, List.length_append]
+        have hBl : 0 < B.length := List.length_pos_iff.mpr hB
+        obtain ⟨e1, e2, e3⟩ := g2 (B.length - 1) (by omega)
+        rw [show A.length + (B.length - 1) = A.length + B.length - 1 by omega] at e1 e3
+        rw [show A.length + M.length + (B.length - 1) = A.length + M.length + B.length - 1 by omega] at e1 e2 e3
+        rw [e1, e3]
+        omega
+      · right
+        refine ⟨hneAB, ?_⟩
+        show v.loc.last - (v.loc.slots (A.length + M.length) - v.loc.slots A.length) = nextOff v.ps (A ++ B)
+        rw [hl, hsj, hsi, g3]
+    · simp [h.clean, hmv.1]
+  · -- nothing to move: the range is empty or reaches the end
+    rw [eraseRange_var_nomove v _ _ h.notFixed hmove]
+    by_cases hM : M = []
+    · -- empty range: nothing changes
+      subst hM
+      simp only [List.append_nil, List.length_nil, Nat.add_zero, Nat.sub_self, Nat.sub_zero] at *
+      have hmem : ∀ x, x ∈ v.destructRange A.length A.length ↔ x ∈ v.mem := by
+        intro x; rw [hdrop x, h.mem_eq x]
+        constructor
+        · rintro ⟨k, hk, _, rfl⟩; exact ⟨k, hk, rfl⟩
+        · rintro ⟨k, hk, rfl⟩; exact ⟨k, hk, by omega, rfl⟩
+      refine ⟨h.lok, h.notFixed, h.eok, h.size_eq, h.slots_eq, ?_, ?_, h.clean⟩
+      · intro x; rw [hmem x]; exact h.mem_eq x
+      · show (if v.loc.size = 0 then 0 else if v.loc.size < v.loc.size then v.loc.slots v.loc.size else v.loc.last) = _ ∨ _
+        by_cases h0 : v.loc.size = 0
+        · simp only [h0, if_true]
+          have : A ++ B = [] := List.length_eq_zero_iff.mp (by rw [← h.size_eq]; exact h0)
+          left; simp [rawEndOf, this]
+        · simp only [h0, if_false, Nat.lt_irrefl]
+          exact h.last_eq
+    · -- the range reaches the end: B is empty
+      have hB : B = [] := by
+        by_cases hb : B = []
+        · exact hb
+        · exfalso
+          have : 0 < B.length := List.length_pos_iff.mpr hb
+          have : 0 < M.length := List.length_pos_iff.mpr hM
+          exact hmove ⟨by omega, by omega⟩
+      subst hB
+      have hMl : 0 < M.length := List.length_pos_iff.mpr hM
+      simp only [List.append_nil, List.length_nil, Nat.add_zero] at *
+      have hn' : v.loc.size - (A.length + M.length - A.length) = A.length := by omega
+      rw [hn']
+      refine ⟨h.lok, h.notFixed, heok', rfl, ?_, ?_, ?_, h.clean⟩
+      · intro k hk
+        rw [h.slots_eq k (by omega), canonOff_append_lt A M k hk]
+      · intro x
+        rw [hdrop x]
+        constructor
+        · rintro ⟨k, hk, hout, rfl⟩
+          have hkA : k < A.length := by omega
+          refine ⟨k, hkA, ?_⟩
+          simp only [canonRec, canonOff_append_lt A M k hkA, getD_append_left' A M k hkA]
+        · rintro ⟨k, hk, rfl⟩
+          refine ⟨k, by omega, Or.inl hk, ?_⟩
+          simp only [canonRec, canonOff_append_lt A M k hk, getD_append_left' A M k hk]
+      · show (if A.length = 0 then 0 else if A.length < v.loc.size then v.loc.slots A.length else v.loc.last) = _ ∨ _
+        by_cases hA : A.length = 0
+        · have : A = [] := List.length_eq_zero_iff.mp hA
+          subst this; left; simp [rawEndOf]
+        · have hlt : A.length < v.loc.size := by omega
+          simp only [hA, if_false, hlt, if_true]
+          right
+          refine ⟨fun hh => hA (by rw [hh]; rfl), ?_⟩
+          rw [h.slots_eq A.length (by omega)]
+          exact canonOff_at_length A M hM
+
+end Cntgs
+
+namespace Cntgs
+
+theorem popBack_eq_eraseRange (v : Vec) (hnf : v.fixedLoc = false) (hpos : 0 < v.loc.size) :
+    v.popBack = v.eraseRange (v.loc.size - 1) v.loc.size := by
+  have hnf' : isFixedOrPlain v.ps = false := hnf
+  have h1 : v.loc.size - (v.loc.size - 1) = 1 := by omega
+  simp only [Vec.popBack, Vec.eraseRange, Vec.size, Vec.fixedLoc, hnf', Bool.false_eq_true, if_false, Nat.lt_irrefl, false_and,
+    Vec.destructRange, h1, List.range_one, List.map_cons, List.map_nil, List.foldl_cons, List.foldl_nil, Nat.zero_add]
+
+theorem clear_eq_eraseRange (v : Vec) (hnf : v.fixedLoc = false) : v.clear = v.eraseRange 0 v.loc.size := by
+  have hnf' : isFixedOrPlain v.ps = false := hnf
+  simp only [Vec.clear, Vec.eraseRange, Vec.size, Vec.fixedLoc, hnf', Bool.false_eq_true, if_false, Nat.lt_irrefl, false_and,
+    Nat.sub_zero, Nat.sub_self]
+
+theorem erase_eq_eraseRange (v : Vec) (i : Nat) (hnf : v.fixedLoc = false) (ht : v.trivialReloc = true) (hi : i < v.loc.size) :
+    v.erase i = v.eraseRange i (i + 1) := by
+  have hnf' : isFixedOrPlain v.ps = false := hnf
+  have ht' : (v.ps.all fun p => p.ty.trivMoveCtor && p.ty.trivDtor) = true := ht
+  have h1 : i + 1 - i = 1 := by omega
+  have hne : i ≠ i + 1 := by omega
+  by_cases hlast : i + 1 < v.loc.size
+  · simp only [Vec.erase, Vec.eraseRange, Vec.size, Vec.fixedLoc, hnf', Bool.false_eq_true, if_false, hlast, hne, ne_eq,
+      not_false_eq_true, and_self, if_true, h1]
+  · have heq : i + 1 = v.loc.size := by omega
+    have hb : ((i + 1) == v.loc.size) = true := by simp [heq]
+    simp only [Vec.erase, Vec.eraseRange, Vec.size, Vec.fixedLoc, hnf', Bool.false_eq_true, if_false, hlast, false_and, h1,
+      Vec.moveForward, Vec.trivialReloc, ht', if_true, Vec.moveForwardTrivial, Bool.not_false, Bool.true_and, hb]
+
+/-- `reserve` keeps the represented sequence (it relocates the block; offsets are relative to its begin) -/
+theorem VarInv.reserve {v : Vec} {es : List Elem} (h : VarInv v es) (n b : Nat) (junk : Nat → Nat) :
+    VarInv (v.reserve n b junk) es := by
+  unfold Vec.reserve
+  split
+  · have hnf' : isFixedOrPlain v.ps = false := h.notFixed
+    refine ⟨h.lok, h.notFixed, h.eok, ?_, ?_, ?_, ?_, h.clean⟩
+    · simp [Vec.fixedLoc, hnf', h.size_eq]
+    · intro k hk
+      simp only [Vec.fixedLoc, hnf', Bool.false_eq_true, if_false, h.size_eq, hk, if_true]
+      exact h.slots_eq k hk
+    · simpa [Vec.fixedLoc, hnf'] using h.mem_eq
+    · simpa [Vec.fixedLoc, hnf'] using h.last_eq
+  · exact h
+
+/-- `reserve(n, b)` with `n ≤ capacity()` does nothing at all -/
+theorem reserve_noop (v : Vec) (n b : Nat) (junk : Nat → Nat) (h : n ≤ v.cap) : v.reserve n b junk = v := by
+  unfold Vec.reserve; simp [Nat.not_lt.mpr h]
+
+theorem reserve_cap (v : Vec) (n b : Nat) (junk : Nat → Nat) (h : v.cap < n) : (v.reserve n b junk).cap = n := by
+  unfold Vec.reserve; simp [h]
+
+/-- the empty vector right after construction -/
+theorem VarInv.new (ps : List Param) (fs : List Nat) (cap bytes : Nat) (junk : Nat → Nat) (hl : ListOK ps)
+    (hnf : isFixedOrPlain ps = false) : VarInv (Vec.new ps fs cap bytes junk) [] := by
+  refine ⟨hl, hnf, fun _ h => absurd h (by simp), rfl, fun k hk => absurd hk (by simp), ?_, Or.inl rfl, rfl⟩
+  intro x; simp [Vec.new]
+
+end Cntgs
+
+namespace Cntgs
+
+/-- the operations of C01 on one vector -/
+inductive VOp
+  | emplace (e : Elem) | pop | erase (i : Nat) | eraseRange (i j : Nat) | clear | reserve (n b : Nat)
+  deriving Repr
+
+def VOp.apply (junk : Nat → Nat) (v : Vec) : VOp → Vec
+  | .emplace e => v.emplaceBack e
+  | .pop => v.popBack
+  | .erase i => v.erase i
+  | .eraseRange i j => v.eraseRange i j
+  | .clear => v.clear
+  | .reserve n b => v.reserve n b junk
+
+/-- the same operations on an ordinary sequence of tuples -/
+def VOp.spec (es : List Elem) : VOp → List Elem
+  | .emplace e => es ++ [e]
+  | .pop => es.dropLast
+  | .erase i => es.take i ++ es.drop (i + 1)
+  | .eraseRange i j => es.take i ++ es.drop j
+  | .clear => []
+  | .reserve _ _ => es
+
+/-- the documented preconditions as far as the bookkeeping is concerned (capacity and payload budget
+    concern the size of the block: C02) -/
+def VOp.Pre (ps : List Param) (es : List Elem) : VOp → Prop
+  | .emplace e => EOK ps e ∧ 0 < esz ps e
+  | .pop => es ≠ []
+  | .erase i => i < es.length
+  | .eraseRange i j => i ≤ j ∧ j ≤ es.length
+  | _ => True
+
+theorem split_range (es : List Elem) (i j : Nat) (hij : i ≤ j) (hj : j ≤ es.length) :
+    es = es.take i ++ (es.drop i).take (j - i) ++ es.drop j ∧ (es.take i).length = i ∧ ((es.drop i).take (j - i)).length = j - i := by
+  refine ⟨?_, by simp; omega, by simp; omega⟩
+  have h1 : es.drop j = (es.drop i).drop (j - i) := by rw [List.drop_drop]; congr 1; omega
+  rw [h1, List.append_assoc, List.take_append_drop, List.take_append_drop]
+
+theorem VarInv.eraseRange' {v : Vec} {es : List Elem} (h : VarInv v es) (ht : v.trivialReloc = true) (i j : Nat)
+    (hij : i ≤ j) (hj : j ≤ es.length) : VarInv (v.eraseRange i j) (es.take i ++ es.drop j) := by
+  obtain ⟨he, h1, h2⟩ := split_range es i j hij hj
+  have h' : VarInv v (es.take i ++ (es.drop i).take (j - i) ++ es.drop j) := by rw [← he]; exact h
+  have := VarInv.eraseRange (es.take i) ((es.drop i).take (j - i)) (es.drop j) h' ht
+  rw [h1, h2, show i + (j - i) = j by omega] at this
+  exact this
+
+/-- **one step**: every operation of C01 maps the canonical layout of `es` to the canonical layout of the
+    sequence that the same operation produces on a plain list -/
+theorem VarInv.step {v : Vec} {es : List Elem} (h : VarInv v es) (ht : v.trivialReloc = true) (junk : Nat → Nat) (op : VOp)
+    (hpre : op.Pre v.ps es) : VarInv (op.apply junk v) (op.spec es) := by
+  cases op with
+  | emplace e => exact h.emplaceBack e hpre.1 hpre.2
+  | pop =>
+    have hl : 0 < es.length := List.length_pos_iff.mpr hpre
+    simp only [VOp.apply, VOp.spec]
+    rw [popBack_eq_eraseRange v h.notFixed (by rw [h.size_eq]; exact hl), h.size_eq]
+    have := h.eraseRange' ht (es.length - 1) es.length (by omega) (Nat.le_refl _)
+    rw [List.drop_length, List.append_nil] at this
+    rw [List.dropLast_eq_take]; exact this
+  | erase i =>
+    simp only [VOp.apply, VOp.spec]
+    rw [erase_eq_eraseRange v i h.notFixed ht (by rw [h.size_eq]; exact hpre)]
+    exact h.eraseRange' ht i (i + 1) (by omega) hpre
+  | eraseRange i j => exact h.eraseRange' ht i j hpre.1 hpre.2
+  | clear =>
+    simp only [VOp.apply, VOp.spec]
+    rw [clear_eq_eraseRange v h.notFixed, h.size_eq]
+    have := h.eraseRange' ht 0 es.length (Nat.zero_le _) (Nat.le_refl _)
+    simpa using this
+  | reserve n b => exact h.reserve n b junk
+
+theorem relocateOne_ps (v : Vec) (i src : Nat) : (v.relocateOne i src).ps = v.ps := by
+  simp only [Vec.relocateOne]
+  split <;> rfl
+
+theorem foldl_relocate_ps (src dst : Nat) (l : List Nat) (v : Vec) :
+    (l.foldl (fun (w : Vec) k => w.relocateOne (dst + k) (src + k)) v).ps = v.ps := by
+  induction l generalizing v with
+  | nil => rfl
+  | cons k ks ih => simp only [List.foldl_cons]; rw [ih, relocateOne_ps]
+
+theorem moveForwardElementwise_ps (v : Vec) (src dst : Nat) : (v.moveForwardElementwise src dst).ps = v.ps := by
+  simp only [Vec.moveForwardElementwise]
+  exact foldl_relocate_ps src dst _ v
+
+theorem moveForwardTrivial_ps (v : Vec) (m : Mem) (src dst : Nat) : (v.moveForwardTrivial m src dst).ps = v.ps := by
+  unfold Vec.moveForwardTrivial; repeat' (first | rfl | split)
+
+theorem moveForward_ps (v : Vec) (src dst : Nat) : (v.moveForward src dst).ps = v.ps := by
+  unfold Vec.moveForward; split
+  · exact moveForwardTrivial_ps v v.mem src dst
+  · exact moveForwardElementwise_ps v src dst
+
+/-- no operation changes the parameter list -/
+theorem apply_ps (junk : Nat → Nat) (v : Vec) (op : VOp) : (op.apply junk v).ps = v.ps := by
+  cases op with
+  | emplace e => simp only [VOp.apply, Vec.emplaceBack]; split <;> rfl
+  | pop => rfl
+  | erase i => simp only [VOp.apply, Vec.erase]; exact moveForward_ps _ _ _
+  | eraseRange i j =>
+    simp only [VOp.apply, Vec.eraseRange]
+    split
+    · exact moveForward_ps _ _ _
+    · rfl
+  | clear => rfl
+  | reserve n b => simp only [VOp.apply, Vec.reserve]; split <;> rfl
+
+/-- sequences of operations that respect the preconditions at every step -/
+def Valid (ps : List Param) : List Elem → List VOp → Prop
+  | _, [] => True
+  | es, op :: ops => op.Pre ps es ∧ Valid ps (op.spec es) ops
+
+/-- **every history**: after any valid sequence of operations the vector represents exactly what an
+    ordinary sequence of tuples holds after the same operations (unbounded in length) -/
+theorem VarInv.history {v : Vec} {es : List Elem} (h : VarInv v es) (ht : v.trivialReloc = true) (junk : Nat → Nat)
+    (ops : List VOp) (hv : Valid v.ps es ops) :
+    VarInv (ops.foldl (VOp.apply junk) v) (ops.foldl VOp.spec es) := by
+  induction ops generalizing v es with
+  | nil => exact h
+  | cons op ops ih =>
+    simp only [List.foldl_cons]
+    have hps := apply_ps junk v op
+    apply ih (h.step ht junk op hv.1)
+    · unfold Vec.trivialReloc at ht ⊢; rw [hps]; exact ht
+    · rw [hps]; exact hv.2
+
+end Cntgs
+
+namespace Cntgs
+
+/-! ### the stride locator (lists without VaryingSize) -/
+
+def fixRec (ps : List Param) (stride : Nat) (es : List Elem) (k : Nat) : Rec :=
+  ⟨stride * k, esz ps (es.getD k []), es.getD k []⟩
+
+structure FixInv (v : Vec) (es : List Elem) : Prop where
+  lok : ListOK v.ps
+  isFixed : v.fixedLoc = true
+  eok : ElemsOK v.ps es
+  count_eq : v.loc.count = es.length
+  stride_dvd : storageAl v.ps ∣ v.loc.stride
+  fits : ∀ e ∈ es, esz v.ps e ≤ v.loc.stride
+  mem_eq : Holds v.mem es.length (fixRec v.ps v.loc.stride es)
+  clean : v.poison = false
+
+theorem fix_ordered {v : Vec} {es : List Elem} (h : FixInv v es) : Ordered es.length (fixRec v.ps v.loc.stride es) := by
+  have hm : ∀ k, k < es.length → es.getD k [] ∈ es := by
+    intro k hk
+    rw [List.getD_eq_getElem?_getD, List.getElem?_eq_getElem hk]; exact List.getElem_mem hk
+  constructor
+  · intro k hk; exact (h.eok _ (hm k hk)).2
+  · intro k hk
+    simp only [fixRec]
+    have := h.fits _ (hm k (by omega))
+    rw [Nat.mul_succ]; omega
+
+theorem FixInv.addr {v : Vec} {es : List Elem} (h : FixInv v es) (k : Nat) : v.addr k = (fixRec v.ps v.loc.stride es k).off := by
+  simp [Vec.addr, h.isFixed, fixRec]
+
+theorem FixInv.abs_eq {v : Vec} {es : List Elem} (h : FixInv v es) : v.abs = es.map some := by
+  unfold Vec.abs Vec.size
+  simp only [h.isFixed, if_true, h.count_eq]
+  apply List.ext_getElem (by simp)
+  intro i h1 h2
+  have hi : i < es.length := by simpa using h1
+  simp only [List.getElem_map, List.getElem_range, Vec.get]
+  rw [h.addr i, read_holds h.mem_eq (fix_ordered h) i hi]
+  simp [fixRec, List.getD_eq_getElem?_getD, List.getElem?_eq_getElem hi]
+
+theorem FixInv.emplaceBack {v : Vec} {es : List Elem} (h : FixInv v es) (e : Elem) (he : EOK v.ps e) (hsz : 0 < esz v.ps e)
+    (hfit : esz v.ps e ≤ v.loc.stride) : FixInv (v.emplaceBack e) (es ++ [e]) := by
+  have hd : storageAl v.ps ∣ v.loc.stride * es.length := Nat.dvd_trans h.stride_dvd (Nat.dvd_mul_right _ _)
+  have hfin : placeEnd v.ps (elemCounts e) (v.loc.stride * es.length) = v.loc.stride * es.length + esz v.ps e :=
+    placeEnd_aligned h.lok e he _ hd
+  have hord := fix_ordered h
+  have hfree : ∀ k, k < es.length → (fixRec v.ps v.loc.stride es k).off + (fixRec v.ps v.loc.stride es k).sz ≤ v.loc.stride * es.length := by
+    intro k hk
+    have hm : es.getD k [] ∈ es := by
+      rw [List.getD_eq_getElem?_getD, List.getElem?_eq_getElem hk]; exact List.getElem_mem hk
+    have := h.fits _ hm
+    simp only [fixRec]
+    have h2 : v.loc.stride * (k + 1) ≤ v.loc.stride * es.length := Nat.mul_le_mul_left _ (by omega)
+    rw [Nat.mul_succ] at h2; omega
+  have hw := write_holds h.mem_eq hord ⟨v.loc.stride * es.length, esz v.ps e, e⟩ hfree
+  have hrec : ∀ k, k < es.length + 1 →
+      (fun k => if k = es.length then (⟨v.loc.stride * es.length, esz v.ps e, e⟩ : Rec) else fixRec v.ps v.loc.stride es k) k
+        = fixRec v.ps v.loc.stride (es ++ [e]) k := by
+    intro k hk
+    by_cases hkn : k = es.length
+    · subst hkn; simp [fixRec, List.getD_eq_getElem?_getD]
+    · have hk' : k < es.length := by omega
+      simp [hkn, fixRec, List.getD_eq_getElem?_getD, List.getElem?_append_left hk']
+  unfold Vec.emplaceBack
+  simp only [h.isFixed, if_true, h.count_eq, hfin, Nat.add_sub_cancel_left]
+  refine ⟨h.lok, h.isFixed, ?_, by simp [h.count_eq], h.stride_dvd, ?_, ?_, by simp [h.clean, hw.1]⟩
+  · intro x hx
+    rcases List.mem_append.mp hx with hx | hx
+    · exact h.eok x hx
+    · simp only [List.mem_singleton] at hx; subst hx; exact ⟨he, hsz⟩
+  · intro x hx
+    rcases List.mem_append.mp hx with hx | hx
+    · exact h.fits x hx
+    · simp only [List.mem_singleton] at hx; subst hx; exact hfit
+  · have := hw.2.congr hrec
+    simpa using this
+
+theorem eraseRange_fix_move (v : Vec) (i j : Nat) (hf : v.fixedLoc = true) (ht : v.trivialReloc = true)
+    (hij : i < j) (hjn : j < v.loc.count) :
+    v.eraseRange i j =
+      { v with
+        mem := (v.destructRange i j).move (v.loc.stride * j) (v.loc.stride * v.loc.count - v.loc.stride * j) (v.loc.stride * i),
+        poison := v.poison || (v.destructRange i j).moveHits (v.loc.stride * j) (v.loc.stride * v.loc.count - v.loc.stride * j) (v.loc.stride * i),
+        loc := { v.loc with count := v.loc.count - (j - i) } } := by
+  have hne : i ≠ j := by omega
+  have hf' : isFixedOrPlain v.ps = true := hf
+  have ht' : (v.ps.all fun p => p.ty.trivMoveCtor && p.ty.trivDtor) = true := ht
+  simp only [Vec.eraseRange, Vec.size, Vec.fixedLoc, hf', if_true, hjn, hne, ne_eq, not_false_eq_true, and_self,
+    Vec.moveForward, Vec.trivialReloc, ht', Vec.moveForwardTrivial, Bool.not_true, Bool.false_and, Bool.false_eq_true, if_false,
+    Vec.addr, Vec.dataEnd, Loc.resize]
+
+theorem eraseRange_fix_nomove (v : Vec) (i j : Nat) (hf : v.fixedLoc = true) (h : ¬ (j < v.loc.count ∧ i ≠ j)) :
+    v.eraseRange i j = { v with mem := v.destructRange i j, loc := { v.loc with count := v.loc.count - (j - i) } } := by
+  have hf' : isFixedOrPlain v.ps = true := hf
+  simp only [Vec.eraseRange, Vec.size, Vec.fixedLoc, hf', if_true, h, if_false, Loc.resize]
+
+theorem FixInv.destruct_holds {v : Vec} {es : List Elem} (h : FixInv v es) (i j : Nat) (hj : j ≤ es.length) :
+    ∀ x, x ∈ v.destructRange i j ↔ ∃ k, k < es.length ∧ (k < i ∨ j ≤ k) ∧ x = fixRec v.ps v.loc.stride es k :=
+  dropRange_holds h.mem_eq (fix_ordered h) i j hj v.addr (fun k _ _ => h.addr k)
+
+theorem FixInv.eraseRange {v : Vec} (A M B : List Elem) (h : FixInv v (A ++ M ++ B)) (ht : v.trivialReloc = true) :
+    FixInv (v.eraseRange A.length (A.length + M.length)) (A ++ B) := by
+  have hord := fix_ordered h
+  have hlen : (A ++ M ++ B).length = A.length + M.length + B.length := by simp only [List.length_append]
+  have hcnt : v.loc.count = A.length + M.length + B.length := by rw [h.count_eq, hlen]
+  have hsub : ∀ x ∈ A ++ B, x ∈ A ++ M ++ B := by
+    intro x hx
+    rcases List.mem_append.mp hx with hx | hx
+    · exact List.mem_append_left _ (List.mem_append_left _ hx)
+    · exact List.mem_append_right _ hx
+  have hdrop := h.destruct_holds A.length (A.length + M.length) (by omega)
+  -- records of the new sequence in terms of the old one
+  have hfront : ∀ k, k < A.length → fixRec v.ps v.loc.stride (A ++ B) k = fixRec v.ps v.loc.stride (A ++ M ++ B) k := by
+    intro k hk
+    simp only [fixRec, getD_append_left' A B k hk]
+    rw [List.append_assoc, getD_append_left' A (M ++ B) k hk]
+  have htail : ∀ k, k < B.length → (A ++ B).getD (A.length + k) [] = (A ++ M ++ B).getD (A.length + M.length + k) [] := by
+    intro k _
+    rw [getD_append_right' A B k]
+    have := getD_append_right' (A ++ M) B k
+    simpa [List.length_append] using this.symm
+  by_cases hmove : A.length + M.length < v.loc.count ∧ A.length ≠ A.length + M.length
+  · rw [eraseRange_fix_move v _ _ h.isFixed ht (by omega) hmove.1]
+    have hfin : (fixRec v.ps v.loc.stride (A ++ M ++ B) ((A ++ M ++ B).length - 1)).off +
+        (fixRec v.ps v.loc.stride (A ++ M ++ B) ((A ++ M ++ B).length - 1)).sz ≤ v.loc.stride * v.loc.count := by
+      have hk : (A ++ M ++ B).length - 1 < (A ++ M ++ B).length := by rw [hlen]; omega
+      have hm : (A ++ M ++ B).getD ((A ++ M ++ B).length - 1) [] ∈ A ++ M ++ B := by
+        rw [List.getD_eq_getElem?_getD, List.getElem?_eq_getElem hk]; exact List.getElem_mem hk
+      have := h.fits _ hm
+      simp only [fixRec]
+      have h2 : v.loc.stride * ((A ++ M ++ B).length - 1 + 1) = v.loc.stride * v.loc.count := by
+        rw [h.count_eq]; congr 1; omega
+      rw [Nat.mul_succ] at h2; omega
+    have hmv := move_holds hord A.length (A.length + M.length) (v.loc.stride * v.loc.count) (by omega) (by rw [hlen]; omega) hdrop hfin
+    simp only [fixRec] at hmv
+    refine ⟨h.lok, h.isFixed, fun x hx => h.eok x (hsub x hx), ?_, h.stride_dvd, fun x hx => h.fits x (hsub x hx), ?_, by simp [h.clean, hmv.1]⟩
+    · simp only [List.length_append]; omega
+    · intro x
+      rw [hmv.2 x]
+      constructor
+      · rintro (⟨k, hk, rfl⟩ | ⟨k, hk1, hk2, rfl⟩)
+        · exact ⟨k, by simp only [List.length_append]; omega, (hfront k hk).symm ▸ rfl⟩
+        · refine ⟨k - M.length, by simp only [List.length_append]; omega, ?_⟩
+          have e3 := htail (k - (A.length + M.length)) (by omega)
+          rw [show A.length + M.length + (k - (A.length + M.length)) = k by omega,
+              show A.length + (k - (A.length + M.length)) = k - M.length by omega] at e3
+          simp only [fixRec, e3]
+          congr 1
+          rw [← Nat.mul_sub, ← Nat.mul_sub]; congr 1; omega
+      · rintro ⟨k, hk, rfl⟩
+        simp only [List.length_append] at hk
+        by_cases hkA : k < A.length
+        · left; exact ⟨k, hkA, hfront k hkA⟩
+        · right
+          refine ⟨k + M.length, by omega, by omega, ?_⟩
+          have e3 := htail (k - A.length) (by omega)
+          rw [show A.length + (k - A.length) = k by omega,
+              show A.length + M.length + (k - A.length) = k + M.length by omega] at e3
+          simp only [fixRec, e3]
+          congr 1
+          rw [← Nat.mul_sub, ← Nat.mul_sub]; congr 1; omega
+  · rw [eraseRange_fix_nomove v _ _ h.isFixed hmove]
+    refine ⟨h.lok, h.isFixed, fun x hx => h.eok x (hsub x hx), ?_, h.stride_dvd, fun x hx => h.fits x (hsub x hx), ?_, h.clean⟩
+    · simp only [List.length_append]; omega
+    · -- either M or B is empty
+      intro x
+      rw [hdrop x]
+      by_cases hM : M = []
+      · subst hM
+        simp only [List.append_nil, List.length_nil, Nat.add_zero] at *
+        constructor
+        · rintro ⟨k, hk, _, rfl⟩; exact ⟨k, hk, rfl⟩
+        · rintro ⟨k, hk, rfl⟩; exact ⟨k, hk, by omega, rfl⟩
+      · have hB : B = [] := by
+          by_cases hb : B = []
+          · exact hb
+          · exfalso
+            have : 0 < B.length := List.length_pos_iff.mpr hb
+            have : 0 < M.length := List.length_pos_iff.mpr hM
+            exact hmove ⟨by omega, by omega⟩
+        subst hB
+        simp only [List.append_nil, List.length_nil, Nat.add_zero] at *
+        constructor
+        · rintro ⟨k, hk, hout, rfl⟩
+          have hkA : k < A.length := by omega
+          exact ⟨k, hkA, by simp only [fixRec, getD_append_left' A M k hkA]⟩
+        · rintro ⟨k, hk, rfl⟩
+          exact ⟨k, by omega, Or.inl hk, by simp only [fixRec, getD_append_left' A M k hk]⟩
+
+end Cntgs
